@@ -77,7 +77,7 @@ def run(rep):
     wd = common.scratch('c03_%d' % os.getpid())
     tf = os.path.join(wd, 'calls.json')
     slim = [{k: c[k] for k in ('op', 'n', 'nouts', 'ngetter', 'events', 'ngetter_params', 'nsetter_params', 'nbody',
-                               'ntest', 'norelse', 'has_iterate_names', 'opts_ok')} for c in calls]
+                               'ntest', 'norelse', 'has_iterate_names', 'opts_ok', 'na', 'nb')} for c in calls]
     with open(tf, 'w') as f:
         json.dump(slim, f)
     tres = tlc.run_tlc('OpContract', CFG, env=dict(TRACE_FILE=tf), workers=16, timeout=1500, name='c03tr').require_ok('OpContract')
